@@ -70,6 +70,8 @@ func caseOptions(r *common.Run, n int) raftsim.Options {
 		o.Voters = 3
 	}
 	o.LongPartitions = rng.Intn(3) == 0
+	// one case in eight keeps the raft state of every replica in a real sharded Pebble log store
+	o.RealStore = rng.Intn(8) == 0
 	switch r.Prop {
 	case "C01":
 		o.AllowDup = false // the quantifier of C01 excludes duplication
